@@ -295,5 +295,6 @@ pub fn main(o: &Opts) -> i32 {
         rep.caps_hit.push(format!("time budget reached: {} programs skipped", skipped));
     }
     rep.exhaustive = skipped == 0;
+    rep.assumptions = vec!["statements range over points of the prime-order subgroup (commitments, Pedersen bases, generators); DESIGN 8.6 lesson 11 explains why the relations are not defined outside it".into(), "the only out-of-subgroup statement point in the alphabet is a torsion-shifted commitment (its encoding, hence the transcript, differs)".into()];
     rep.finish()
 }
